@@ -425,3 +425,129 @@ print(json.dumps({"internal_state_changed_through_returned_value": bool((before 
         return {"reproduced": False, "reason": err[-400:]}
     r = json.loads(out.strip().splitlines()[-1])
     return {"reproduced": r["internal_state_changed_through_returned_value"], "real_code": r, "expected": "mutating the returned value leaves the object unchanged"}
+
+
+def masses_setter_index_functions(run):
+    """Phonopy.masses setter: the three cells receive the same masses re-indexed consistently:
+    primitive <- np.array(masses);  supercell <- p_masses[[p2p_map[x] for x in s2p_map]];  unit cell <- s_masses[u2s_map]
+    (index-function tags on the abstracted arrays: the unit-cell atom u is the supercell atom u2s_map[u])."""
+    mod = pyexec.load(AF)
+    m = _find(mod, "Phonopy", "masses", setter=True)
+    pref = AF + ":Phonopy.masses.setter[index functions]"
+    st = PState()
+    got = {}
+
+    def setm(which):
+        def hook(ex, st_, args, kwargs):
+            got[which] = (args[1] if len(args) > 1 else None, list(st_.pc))
+            return None
+        return hook
+    p2p, s2p, u2s = Opaque("p2p_map"), Opaque("s2p_map"), Opaque("u2s_map")
+    prim = st.new(Record("Primitive", {"p2p_map": p2p, "s2p_map": s2p}))
+    sup = st.new(Record("Supercell", {"u2s_map": u2s, "u2u_map": Opaque("u2u_map")}))
+    unit = st.new(Record("PhonopyAtoms", {}))
+    self_ref = st.new(Record("Phonopy", {"_primitive": prim, "_supercell": sup, "_unitcell": unit, "_force_constants": None}))
+    hooks = {"Primitive.set_masses": setm("primitive"), "Supercell.set_masses": setm("supercell"), "PhonopyAtoms.set_masses": setm("unitcell")}
+    ex = PyExec(mod, run.sink, pref, hooks=hooks, opaque_unknown=True, split=True)
+    n0 = len(run.sink.obls)
+    given = Opaque("masses given by the caller")
+    ex.call_function(st, m, [given], self_ref=self_ref, cls="Phonopy")
+    if set(got) != {"primitive", "supercell", "unitcell"}:
+        raise CheckerError("masses setter: set_masses calls found: %s" % sorted(got))
+    pm, sm, um = got["primitive"][0], got["supercell"][0], got["unitcell"][0]
+    ok_p = isinstance(pm, Opaque) and pyexec.source_token(st, pm) == pyexec.content_token(st, given)
+    run.sink.add(pref, "post", got["primitive"][1], z3.BoolVal(bool(ok_p)), replay=lambda model: replay_masses(),
+                 meta={"label": "primitive cell receives (a copy of) the masses given"})
+    # supercell: [p_masses[p2p_map[x]] for x in s2p_map]  ->  take(p_masses, <list over s2p_map>)
+    ok_s = isinstance(sm, Opaque) and isinstance(sm.idx, tuple) and sm.idx[0] == "take"
+    run.sink.add(pref, "post", got["supercell"][1], z3.BoolVal(bool(ok_s)), replay=lambda model: replay_masses(),
+                 meta={"label": "supercell receives the primitive masses gathered through an index list (got index function %r)" % (getattr(sm, "idx", None),)})
+    ok_u = isinstance(um, Opaque) and isinstance(um.idx, tuple) and um.idx[0] == "take" and um.idx[2] == u2s.id and um.idx[1] == getattr(sm, "idx", None)
+    run.sink.add(pref, "post", got["unitcell"][1], z3.BoolVal(bool(ok_u)), replay=lambda model: replay_masses(),
+                 meta={"label": "unit cell receives s_masses[u2s_map] (got index function %r)" % (getattr(um, "idx", None),)})
+    run.functions.append({"file": AF, "function": "Phonopy.masses.setter[index functions]", "line": m.lineno, "sha1": mod.sha(m), "obligations": len(run.sink.obls) - n0})
+
+
+def replay_masses():
+    from pvc import creplay
+    import json
+    code = r'''
+import json
+import numpy as np
+import phonopy.api_phonopy as api
+class Cell:
+    def __init__(self, **k): self.__dict__.update(k); self.m = None
+    def set_masses(self, m): self.m = np.array(m)
+# unit cell Na Cl, 2 unit cells in the supercell: supercell order Na Na' Cl Cl'; primitive = unit cell
+prim = Cell(p2p_map={0: 0, 2: 1}, s2p_map=[0, 0, 2, 2])
+sup = Cell(u2s_map=np.array([0, 2]), u2u_map={0: 0, 2: 1})
+unit = Cell()
+o = api.Phonopy.__new__(api.Phonopy)
+o._primitive, o._supercell, o._unitcell, o._force_constants = prim, sup, unit, None
+o.masses = [23.0, 35.5]
+print(json.dumps({"primitive": prim.m.tolist(), "supercell": sup.m.tolist(), "unitcell": unit.m.tolist()}))
+'''
+    rc, out, err = creplay.py_eval(code)
+    if rc != 0:
+        return {"reproduced": False, "reason": err[-400:]}
+    r = json.loads(out.strip().splitlines()[-1])
+    ok = r["primitive"] == [23.0, 35.5] and r["supercell"] == [23.0, 23.0, 35.5, 35.5] and r["unitcell"] == [23.0, 35.5]
+    return {"reproduced": not ok, "real_code": r, "expected": {"primitive": [23.0, 35.5], "supercell": [23.0, 23.0, 35.5, 35.5], "unitcell": [23.0, 35.5]}}
+
+
+def dataset_setter_copies(run):
+    """Phonopy.dataset setter: a type-1 dataset ('first_atoms') handed in by the caller is deep-copied, so that later writes of
+    forces / energies into the stored dataset never reach the caller's (or another object's) dictionaries."""
+    mod = pyexec.load(AF)
+    m = _find(mod, "Phonopy", "dataset", setter=True)
+    pref = AF + ":Phonopy.dataset.setter"
+    st = PState()
+    given = Opaque("dataset given by the caller")
+    marks = []
+
+    def deepcopy(ex, st_, args, kwargs):
+        r = Opaque("deep copy of " + args[0].why) if isinstance(args[0], Opaque) else Opaque("deep copy")
+        marks.append((r, args[0]))
+        return r
+    self_ref = st.new(Record("Phonopy", {"_dataset": None, "_supercells_with_displacements": Opaque("old displaced supercells")}))
+    ex = PyExec(mod, run.sink, pref, hooks={"copy.deepcopy": deepcopy}, opaque_unknown=True, split=True)
+    n0 = len(run.sink.obls)
+    outs = ex.call_function(st, m, [given], self_ref=self_ref, cls="Phonopy")
+    n = 0
+    for (s2, fl, v) in outs:
+        if fl != "return":
+            continue
+        ds = s2.heap[self_ref.id].attrs.get("_dataset")
+        if ds is None or isinstance(ds, dict):
+            continue           # dataset None, or the type-2 branch that rebuilds the dictionary through the displacements/forces setters
+        n += 1
+        ok = any(ds is r and src is given for (r, src) in marks)
+        run.sink.add(pref, "ownership", list(s2.pc), z3.BoolVal(bool(ok)), replay=lambda model: replay_dataset(),
+                     meta={"label": "the stored type-1 dataset is copy.deepcopy(dataset) (stored: %r)" % (ds,)})
+        run.sink.add(pref, "post", list(s2.pc), z3.BoolVal(s2.heap[self_ref.id].attrs.get("_supercells_with_displacements") is None),
+                     meta={"label": "displaced supercells are invalidated when the dataset is replaced"})
+    if n == 0:
+        raise CheckerError("dataset setter: no path stores a caller dataset")
+    run.functions.append({"file": AF, "function": "Phonopy.dataset.setter", "line": m.lineno, "sha1": mod.sha(m), "obligations": len(run.sink.obls) - n0})
+
+
+def replay_dataset():
+    from pvc import creplay
+    import json
+    code = r'''
+import json
+import numpy as np
+import phonopy.api_phonopy as api
+o = api.Phonopy.__new__(api.Phonopy)
+o._dataset = None; o._supercells_with_displacements = "old"
+ds = {"natom": 2, "first_atoms": [{"number": 0, "displacement": [0.01, 0, 0]}]}
+o.dataset = ds
+o._dataset["first_atoms"][0]["forces"] = np.zeros((2, 3))
+print(json.dumps({"caller_dataset_gained_forces": "forces" in ds["first_atoms"][0], "displaced_supercells": o._supercells_with_displacements}))
+'''
+    rc, out, err = creplay.py_eval(code)
+    if rc != 0:
+        return {"reproduced": False, "reason": err[-400:]}
+    r = json.loads(out.strip().splitlines()[-1])
+    return {"reproduced": r["caller_dataset_gained_forces"] or r["displaced_supercells"] is not None, "real_code": r,
+            "expected": "writing into the stored dataset does not change the caller's; displaced supercells reset"}
